@@ -110,6 +110,18 @@ def build(rng, tier):
         ops.append("eng conc " + " ".join(inst for inst, _, _ in members))
         for inst, _, _ in members: ops.append(f"eng dump {inst}")
         cases.append(engcheck.Case(members[0][1], f"g{g}", ops, {"inp": members[0][2], "kind": "concurrent", "members": members}))
+    # (2b) instances with LONG recursive strata (about 70 iterations each) evaluated at the same time on ONE shared pool: anything per-thread or per-pool
+    # rather than per-instance (a "changed" flag, a scratch buffer) is seen by the neighbour
+    for g, (sz, pids2) in enumerate([(4, ["youter", "youter"]), (8, ["youter", "youter", "yinner"]), (2, ["youter", "youter"]), (4, ["youter", "ystress"])] if tier == "quick"
+                                    else [(sz, ps) for sz in (2, 3, 4, 8, 16) for ps in (["youter", "youter"], ["youter", "youter", "youter", "yinner"], ["youter", "ystress"])]):
+        members = [(f"sh{g}_{m}", pid, (sinp if pid == "ystress" else {})) for m, pid in enumerate(pids2)]
+        ops = []
+        for inst, pid, inp in members:
+            ops.append(f"eng new {inst} {pid} par {sz}")
+            ops += engcheck.load_ops(inst, inp)
+        ops.append("eng conc " + " ".join(inst for inst, _, _ in members))
+        for inst, _, _ in members: ops.append(f"eng dump {inst}")
+        cases.append(engcheck.Case(members[0][1], f"sh{g}", ops, {"inp": members[0][2], "kind": "concurrent", "members": members, "no_model": True}))
     return progs, mods, cases
 
 
